@@ -27,17 +27,17 @@ META = {
      "sim=yes selections are called only through the CLI's own sequence (sanitise, UnionDisjointStates, ComputeSimulation(numStates), CheckInclusion)"],
     {"quick": {"plain": 35, "san": 10}, "thorough": {"plain": 900, "san": 300}}),
  "C02": _m("exploration",
-    "one run: generated operands with overlapping or sparse state numbers, empty operands, useless states; Union (no / both / one map), UnionDisjointStates (client makes the state sets disjoint first), Intersection and IntersectionBU with absent, empty and pre-filled (left by an earlier identical call) maps; operands possibly shared copy-on-write with other handles; afterwards operands and results are mutated / destroyed. Oracle: exact language equality with the model union / product; the reported maps name an operand state / pair for every result state; operands unchanged; every live handle equals its model at the end. Distinct non-trivial case = hash of (A, B, operation).",
+    "one run: generated operands with overlapping or sparse state numbers, empty operands, useless states; Union (no / both / one map), UnionDisjointStates (client makes the state sets disjoint first), Intersection and IntersectionBU with absent, empty and pre-filled (left by an earlier identical call) maps; operands possibly shared copy-on-write with other handles; afterwards operands and results are mutated / destroyed. Oracle: exact language equality with the model union / product; the reported maps are judged semantically (every result state is named; what it accepts as a root is what the operand state / pair it stands for accepts; no two operand states / pairs share one result state unless the call merges them); maps left by another call (same or other operands) must not change the result's language; operands unchanged rule for rule (the property says so); every live handle equals its model at the end. Distinct non-trivial case = hash of (A, B, operation).",
     ["the language claim itself is a function of the inputs; simulation contributes the environment quantifier (layout decides product numbering, sharing, history)"], Q),
  "C03": _m("exploration",
-    "one run: generated automata (1-6 states for the exact language oracle, up to 40 for the structural one) with the corner cases the property names (final states without rules, unreachable-but-rule-owning states, unproductive states, no final state); RemoveUnreachableStates / RemoveUselessStates (with and without map) / IsLangEmpty; results share storage with the operand, then either is mutated. Oracle: language equality, reachability / usefulness post-conditions computed by the model on the read-back result, emptiness by the model. Distinct non-trivial case = hash of (A, operation).",
+    "one run: generated automata (1-6 states mostly, up to 40; language equality exact within a work bound, else by sampled membership in both directions) with the corner cases the property names (final states without rules, unreachable-but-rule-owning states, unproductive states, no final state); RemoveUnreachableStates / RemoveUselessStates (with and without map) / IsLangEmpty; results share storage with the operand, then either is mutated. Oracle: language equality, reachability / usefulness post-conditions computed by the model on the read-back result, emptiness by the model. Distinct non-trivial case = hash of (A, operation).",
     [], Q),
  "C04": _m("exploration",
     "one run: generated automata (1-7 states, sometimes 17-40 so that the relation outgrows its initial 16x16 matrix), numbered densely either in visiting order (as the CLI does) or by a drawn bijection; downward simulation on the automaton, upward simulation on its useless-free part. Oracle: naive greatest fix-point from the definitions in the property, compared pair by pair through get(q,r). Distinct case = hash of the dense automaton and direction; counted separately when the relation is larger than the identity.",
     ["precondition from the property: the occurring states are exactly 0..n-1 and n is passed"], Q),
  "C05": _m("exploration",
-    "one run: generated automata with sparse or dense numbers, useless states and states duplicated to create simulation-equivalent final and non-final states; Reduce. Oracle: exact language equality (<= 8 states) or equality with the model's simulation quotient (larger); result has no more states / rules; every result state is a state of the input; operand unchanged.",
-    [], Q),
+    "one run: generated automata with sparse or dense numbers, useless states and states duplicated to create simulation-equivalent final and non-final states; Reduce. Oracle: language equality (exact within a work bound, else sampled membership in both directions); result has no more states / rules than the input; every result state is a state of the input; no two result states are simulation-equivalent in the input (two states of one class cannot both be images under the collapse map); operand keeps its language.",
+    ["'the image of at least one state of A' is read with the map the property's anchors name (state -> representative of its downward-simulation equivalence class): result states are states of A, at most one per class of A's downward-simulation equivalence as computed by the model; which member represents a class is left open"], Q),
  "C06": _m("exploration",
     "one run: automata over a process-wide or a private on-the-fly alphabet shared between clients; other symbols are registered between load and complement; alphabets with only nullary symbols, universal and empty languages. Oracle: S = dictionary content at the call; no tree over S is accepted by both (empty product) and every tree over S is accepted by one (universal automaton included in the tagged union), both by the exact model; no rule of the complement uses a symbol outside S. The complement is read by iteration and its symbol numbers are interpreted through the operand's alphabet.",
     ["the construction enumerates choice functions: exhausting 3*10^6 allocator events is inconclusive"], Q),
@@ -52,7 +52,7 @@ META = {
     "one run: generated NFA pairs (<= 7 states; several start states, start-and-final states, dead / unreachable states, symbols in one operand only), loaded after other clients registered unrelated symbols; antichains, congruence depth-first and breadth-first in a drawn order, directly with arbitrary overlapping numbering and through the CLI protocol. Oracle: exact subset-construction inclusion; all three agree; a step that exceeds 2*10^7 allocator events is a hang.",
     [], Q),
  "C10": _m("exploration",
-    "one run: generated NFAs (empty word accepted, several start states, product states with one initial component); Union, UnionDisjointStates, Intersection, Reverse, RemoveUnreachableStates, RemoveUselessStates, GetCandidateTree; results read back through DumpToString and the independent reader. Oracle: exact NFA language equality / inclusion by the model; operands unchanged.",
+    "one run: generated NFAs (empty word accepted, several start states, product states with one initial component); Union, UnionDisjointStates, Intersection, Reverse, RemoveUnreachableStates, RemoveUselessStates, GetCandidateTree; results read back through DumpToString and the independent reader. Oracle: exact NFA language equality / inclusion by the model; operands keep their language.",
     ["start symbols are not part of the language (C09's acceptance definition)"], Q),
  "C11": _m("exploration",
     "one run: 1-4 clients with interleaved histories of construct / load / copy / partial copy / assign / self-assign / move / AddTransition / SetStateFinal / SetStatesFinal / EraseFinalStates / Clear / destroy / give-a-copy-to-another-client and library operations over explicit tree and finite automata; client aborts. Oracle: after every mutating step every live handle of every client is read back (iteration resp. dump) and equals its private model; a deciding operation repeated later on equal operands returns the same result. Non-trivial distinct case = hash of a repeated decision; distinct interleavings are counted by allocation fingerprint.",
@@ -67,10 +67,10 @@ META = {
      "the arbitrary-byte-string clause is sampled, not enumerated"],
     {"quick": {"plain": 25, "san": 10}, "thorough": {"plain": 600, "san": 300}}),
  "C14": _m("exploration",
-    "one run: ReindexStates through a weak translator (counter from anywhere), through injective-sparse / dense-bijective / identity / merging functors with and without final states, into a fresh automaton or into a destination that already holds rules and shares clusters with another handle; CollapseStates with total maps; TranslateSymbols with permuting / merging / fresh-name maps. Oracle: the result is exactly (old destination) union image, rule for rule; injective => same counts and language; merging => super-language; translator contents consistent; sharing peers unchanged.",
+    "one run: ReindexStates through a weak translator (counter from anywhere), through injective-sparse / dense-bijective / identity / merging functors with and without final states, into a fresh automaton or into a destination that already holds rules and shares clusters with another handle; CollapseStates with total maps; TranslateSymbols with permuting / merging / fresh-name maps. Oracle: the result is exactly (old destination) union image, rule for rule; injective => same counts and language; merging => super-language; translator contents consistent; sharing peers keep their language.",
     [], Q),
  "C15": _m("exploration",
-    "one run: generated automata incl. leaf-only, deep-only and unproductive-final corner cases; GetCandidateTree. Oracle: exact inclusion witness <= A; witness non-empty iff A non-empty; operand unchanged.",
+    "one run: generated automata incl. leaf-only, deep-only and unproductive-final corner cases; GetCandidateTree. Oracle: exact inclusion witness <= A; witness non-empty iff A non-empty; operand keeps its language.",
     [], Q),
  "C17": _m("exploration",
     "one run: 1-3 clients hold MTBDDs with int and ordered-set leaves over <= 6 variables; construct with don't-cares, constant, copy, assign, self-assign, destroy, apply 1/2/3 with eight leaf functions (constant, non-commutative, projections), Project (max/min), Rename (monotone), ExtendWith, GetMtbddForPrefix, GetPaths. Oracle after every step, for every live diagram of every client: GetValue on all 256 total assignments equals the truth-table model; a == b exactly when the tables are equal; GetPaths partitions the assignments with the right values.",
